@@ -153,7 +153,7 @@ def one_case(col: Collector, rng, index: int, max_nodes: int):
         n_edges = sum(len(v["inputs"]) for v in expected.values())
         two = True
     else:
-        spec = gen_spec(rng, max_nodes=max_nodes, names=rng.choice(["collide", "plain"]), hostile_outputs=rng.random() < 0.1,
+        spec = gen_spec(rng, max_nodes=max_nodes, names=rng.choice(["collide", "plain"]), hostile_outputs=rng.random() < 0.2,
                         json_safe=(fmt == "json"), zero_output_sinks=rng.choice([0.0, 0.5, 1.0]), dup_payloads=0.3)
         for n in spec:
             r = rng.random()
